@@ -10,7 +10,9 @@ mod p03_nocrash;
 mod p04_consume;
 mod p05_prefix;
 mod p06_resync;
+mod p09_filter;
 mod p13_construct;
+mod p15_lengths;
 mod p14_codes;
 mod p16_reserialise;
 mod p19_zstring;
@@ -80,6 +82,8 @@ fn main() {
             "C04" => p04_consume::run(&ctx),
             "C05" => p05_prefix::run(&ctx),
             "C06" => p06_resync::run(&ctx),
+            "C09" => p09_filter::run(&ctx),
+            "C15" => p15_lengths::run(&ctx),
             "C13" => p13_construct::run(&ctx),
             "C14" => p14_codes::run(&ctx),
             "C19" => p19_zstring::run(&ctx),
